@@ -408,14 +408,18 @@ def write_replay(prop, key, contract: Contract, rec):
         return False
 
     simple_ghosts = contract.ghost and all(isinstance(v, str) and v in ("int", "str", "bool") for v in contract.ghost.values())
-    if simple_ghosts and not contract.replay:
+    SIMPLE = ("str", "int", "bool", "str|None", "dict[str|None,str]", "dict[str,str]")
+    simple_params = bool(contract.params) and all((isinstance(v, str) and v.strip() in SIMPLE) or not isinstance(v, str) and not callable(v)
+                                                  for k, v in contract.params.items())
+    no_model = "model" not in rec or abstract(rec["model"])
+    if (simple_ghosts or (not contract.ghost and simple_params and no_model)) and not contract.replay:
         params = {k: (v if not callable(v) else "object") for k, v in contract.params.items()}
         txt = SEARCH_TEMPLATE.format(
             prop=prop, name=rec["name"], key=key, clause=rec.get("clause", ""), solver=rec.get("solver"),
             requires=list(contract.requires), ghost=dict(contract.ghost), params=params,
             raises={k: (v if v is True else str(v)) for k, v in contract.raises.items()},
             ensures=[list(e) for e in contract.ensures if isinstance(e[1], str)],
-            first={k: v for k, v in (rec.get("model") or {}).items() if k in contract.ghost},
+            first={k: v for k, v in (rec.get("model") or {}).items() if not abstract(v)},
             contracts_dir=str(VERIF / "contracts"), shims_dir=str(VERIF / "shims"))
         fn.write_text(txt)
         return fn, True
